@@ -626,11 +626,16 @@ def nest_item(arg):
             out["n"] += 1
             key = f"nest:{info['kind']}:{'valid' if info['want_ok'] else 'invalid'}"
             out["counters"][key] = out["counters"].get(key, 0) + 1
-            for axis in ("app", "entry"):
-                if axis in case:
-                    val = case[axis] if axis == "entry" else case[axis][1]
-                    key = f"axis:{axis}={val}:{info['kind']}:{'valid' if info['want_ok'] else 'invalid'}"
-                    out["counters"][key] = out["counters"].get(key, 0) + 1
+            axes = []
+            if "app" in case:
+                axes += [f"app={case['app'][1]}", f"appshape={case['app'][3] if len(case['app']) > 3 else 'list'}"]
+            if "entry" in case:
+                axes.append(f"entry={case['entry']}")
+            if case.get("exit"):
+                axes.append(f"exit={case['channel']}")
+            for axis in axes:
+                key = f"axis:{axis}:{info['kind']}:{'valid' if info['want_ok'] else 'invalid'}"
+                out["counters"][key] = out["counters"].get(key, 0) + 1
             out["devs"] += [(s, case, d) for s, d in devs]
     return _shrink(out)
 
@@ -644,6 +649,8 @@ def ctx_item(arg):
             out["n"] += 1
             key = f"ctx:entered={info['entered']}:{'raised' if info['raised'] else 'returned'}"
             out["counters"][key] = out["counters"].get(key, 0) + 1
+            if info["entered"] == 3:
+                out["counters"][f"axis:ctx-body={case['raise']}"] = out["counters"].get(f"axis:ctx-body={case['raise']}", 0) + 1
             for step in info["valid_kinds"]:
                 out["counters"]["axis:ctx-step-valid=" + step] = out["counters"].get("axis:ctx-step-valid=" + step, 0) + 1
             out["devs"] += [(s, case, d) for s, d in devs]
@@ -836,6 +843,9 @@ def explore(ctx):
             "nest_dirs": c19_nest.DIRS[tier],
             "nest_matrix": [list(p) for p in c19_nest.matrix(tier)],
             "nest_append_modes": c19_nest.APPEND_MODES,
+            "nest_append_shapes": c19_nest.APPEND_SHAPES,
+            "nest_exit_on_error": [False, True],
+            "context_body_exits": c19_nest.CTX_EXITS,
             "nest_entry_forms": c19_nest.ENTRY_FORMS,
             "context_steps": c19_nest.CTX_STEPS,
             "admission_string_length": 4 if ctx.quick else 5,
@@ -877,6 +887,14 @@ def explore(ctx):
     for mode in c19_nest.APPEND_MODES:
         ctx.require(_axis(f"app={mode}", "valid") > 10, f"'files+' appends inside config files ({mode}): layouts the oracle accepts occur")
     ctx.require(_axis("app=after-set", "invalid") > 10 and _axis("app=onto-argv", "invalid") > 10, "'files+' appends inside config files: layouts with an invalid appended item occur")
+    for shape in c19_nest.APPEND_SHAPES:
+        # (quick writes a single item only with the file that exists next to the config: every such layout is valid)
+        ctx.require(
+            _axis(f"appshape={shape}", "valid") > 10 and (_axis(f"appshape={shape}", "invalid") > 10 or (ctx.quick and shape == "scalar")),
+            f"'files+' value written as {shape}: layouts that must parse (and, except quick single items, layouts that must fail)",
+        )
+    for ch in c19_nest.CHANNELS:
+        ctx.require(_axis(f"exit={ch}", "valid") > 5 and _axis(f"exit={ch}", "invalid") > 10, f"default-settings parsers through channel {ch}: layouts that must parse and layouts that must fail")
     for form in c19_nest.ENTRY_FORMS[1:]:
         if ctx.quick and form == "path-cwdarg":
             continue
@@ -886,6 +904,8 @@ def explore(ctx):
         )
     for step in c19_nest.CTX_STEPS:
         ctx.require(counters.get("axis:ctx-step-valid=" + step, 0) > 10, f"context manager: step kind {step} occurs where the model allows entering it")
+    for how in c19_nest.CTX_EXITS:
+        ctx.require(counters.get(f"axis:ctx-body={how}", 0) > 10, f"context manager: 3 nested blocks entered and left by body exit kind {how!r}")
     ctx.require(counters.get("ctx:entered=3:raised", 0) > 10 and counters.get("ctx:entered=3:returned", 0) > 10, "context manager: 3 nested blocks entered, with and without exception")
     ctx.require(counters.get("parser:ok", 0) > 100 and counters.get("parser:ArgumentError", 0) > 100, "parser level: both accepted and rejected paths")
     ctx.require(counters.get("admission:valid", 0) > 100 and counters.get("admission:invalid", 0) > 100, "mode admission: valid and invalid strings")
